@@ -85,7 +85,22 @@ def donor_text() -> str:
     return t
 
 
-DOCS = {'full': FULL, 'min': MIN}
+COMPACT = '''option"title""x";ic
+plugin"mod""cfg";ic
+pushmeta kk:1;ic
+2000-01-01 open Assets:A USD,EUR"STRICT";ic
+    kk:1;ic
+2000-01-01 balance Assets:A 10~0.1USD;ic
+2000-01-01 note Assets:A"text"#tag^link;ic
+2000-01-01 *"payee""narration"#tag^link;ic
+    kk:"v"
+    !Assets:A 1USD{2EUR,2000-01-01}@3CAD;ic
+        pk:2
+    Assets:B 4USD{{5#6EUR}}@@7CAD
+    Assets:C (1+2)*-3USD
+'''
+
+DOCS = {'full': FULL, 'min': MIN, 'compact': COMPACT}
 SKIP_SLOTS = {'raw_string0', 'raw_string1', 'raw_string2'}
 
 
@@ -133,7 +148,8 @@ def find_hosts() -> dict[str, dict]:
                 continue
             pres = tuple(getattr(m, s['name']) is not None for s in sc)
             h = hosts.setdefault(type(m).__name__, {'slots': sc, 'inits': []})
-            if all(p != pres for _, _, p in h['inits']) and len(h['inits']) < 3:
+            if all((p != pres or dn != doc) for dn, _, p in h['inits']) and sum(1 for dn, _, _ in h['inits'] if dn == doc) < 2 \
+                    and len(h['inits']) < 5:
                 h['inits'].append((doc, path, pres))
     return hosts
 
@@ -256,6 +272,10 @@ def replay(hosts: dict, beh: dict, check: set[str]) -> tuple[list, int]:
     steps = 0
 
     def add(kind: str, ev: dict, msg: str) -> None:
+        if doc == 'compact' and kind in ('reparse', 'readback') and ev['op'] in ('clear', 'vclear') and 're-parse' in msg:
+            # removing a child glued to its right neighbour also removes the only separator on its left
+            findings.append(('slots/compact-source/neighbours-merged-after-removal', kind, msg))
+            return
         findings.append((f'slots/{cname}.{ev["name"]}/{ev["op"]}/{kind}', kind, msg))
 
     for ev in beh['steps'][1:]:
@@ -308,6 +328,13 @@ def replay(hosts: dict, beh: dict, check: set[str]) -> tuple[list, int]:
                 elif isinstance(base_v, str) and any(t in (models.EscapedString, models.InlineComment, models.BlockComment) for t in s['types']):
                     value = ''
                 else:
+                    break
+                setattr(m, s['val'], value)
+            elif op == 'vsetsame':
+                value = getattr(m, s['val'])
+                if value is None:
+                    break
+                if isinstance(value, base.RawModel):
                     break
                 setattr(m, s['val'], value)
             elif op == 'vclear':
@@ -378,12 +405,12 @@ def replay(hosts: dict, beh: dict, check: set[str]) -> tuple[list, int]:
                     add('frame', ev, f'token {t!r} outside the child disappeared')
             for t in now_toks:
                 if id(t) not in oldset and id(t) not in child_ids and not (isinstance(t, SEP_TYPES) or not t.raw_text):
-                    if op in ('vset', 'vsetedge'):
+                    if op in ('vset', 'vsetedge', 'vsetsame'):
                         continue      # value-level writes create the child themselves
                     add('frame', ev, f'token {t!r} outside the child appeared')
-        if 'readback' in check and op in ('vset', 'vsetedge', 'vclear'):
+        if 'readback' in check and op in ('vset', 'vsetedge', 'vsetsame', 'vclear'):
             got = getattr(m, s['val'])
-            want = value if op in ('vset', 'vsetedge') else None
+            want = value if op in ('vset', 'vsetedge', 'vsetsame') else None
             gv = tree.text_of(got) if isinstance(got, base.RawModel) else got
             wv = tree.text_of(want) if isinstance(want, base.RawModel) else want
             if gv != wv:
@@ -397,7 +424,7 @@ def replay(hosts: dict, beh: dict, check: set[str]) -> tuple[list, int]:
                 f2 = tree.parse(text)
                 if 'reparse' in check and tree.content(f2) != tree.content(f):
                     add('reparse', ev, f'content differs after re-parse of {text!r}')
-                if 'readback' in check and op in ('vset', 'vsetedge', 'vclear'):
+                if 'readback' in check and op in ('vset', 'vsetedge', 'vsetsame', 'vclear'):
                     m2 = at_path(f2, path)
                     # which model a comment is attributed to may differ after re-parse (attribution aside)
                     strip = lambda d: {k: v for k, v in d.items() if k not in ('leading_comment', 'trailing_comment')}
@@ -440,16 +467,28 @@ def _chunk(arg: tuple) -> tuple[int, list]:
     return steps, out
 
 
-def run(rep: common.Reporter, tier: str, check: set[str]) -> dict:
+ALL_OPS = '{"set", "clear", "same", "vset", "vsetedge", "vsetsame", "vclear", "attached"}'
+
+
+def run(rep: common.Reporter, tier: str, check: set[str], plans: Optional[list] = None) -> dict:
     hosts = find_hosts()
-    depth = 1 if tier == 'quick' else 2
+    if plans is not None:
+        pass
+    elif tier == 'quick':
+        plans = [(1, ALL_OPS, 'TRUE'), (2, '{"set", "clear", "vset", "vsetsame"}', 'FALSE')]
+    else:
+        plans = [(2, ALL_OPS, 'TRUE')]
     behs: list[str] = []
-    r = tlc.run('Slots', {'Classes': tla_classes(hosts), 'Depth': str(depth), 'WithAttached': 'TRUE'},
-                invariants=['FrameOK', 'RefusalOK', 'RequiredOK'], constraints=['Emit'],
-                on_print=lambda p: behs.append(p[1]), timeout=3000)
-    if not r.ok:
-        rep.machinery_error(f'Slots TLC run failed: {r.violated} {r.tail[-800:]}')
-        return {}
+    states = transitions = 0
+    for depth, ops, att in plans:
+        r = tlc.run('Slots', {'Classes': tla_classes(hosts), 'Depth': str(depth), 'OpSet': ops, 'WithAttached': att},
+                    invariants=['FrameOK', 'RefusalOK', 'RequiredOK'], constraints=['Emit'],
+                    on_print=lambda p: behs.append(p[1]), timeout=3000)
+        if not r.ok:
+            rep.machinery_error(f'Slots TLC run failed: {r.violated} {r.tail[-800:]}')
+            return {}
+        states += r.distinct
+        transitions += r.generated
     steps = 0
     with mp.Pool(16) as pool:
         for st, out in pool.imap_unordered(_chunk, [(sorted(check), ch) for ch in common.chunked(behs, 200)]):
@@ -459,10 +498,12 @@ def run(rep: common.Reporter, tier: str, check: set[str]) -> dict:
                     rep.machinery_error(msg)
                 elif kind in check:
                     rep.violation(fp, {'kind': kind, 'what': msg, 'behaviour': beh})
-    return {'states': r.distinct, 'transitions': r.generated, 'behaviours': len(behs), 'steps': steps,
+    return {'states': states, 'transitions': transitions, 'behaviours': len(behs), 'steps': steps,
             'classes': len(hosts), 'slots': sum(len(h['slots']) for h in hosts.values()),
             'sample': json.loads(behs[len(behs) // 2]) if behs else None}
 
 
 def refusal_part(rep: common.Reporter, tier: str) -> dict:
-    return run(rep, tier, {'refusal'})
+    # attached donors directly, and after one accepted edit
+    return run(rep, tier, {'refusal'}, plans=[(1, '{"attached"}', 'TRUE'), (2, '{"attached", "set", "clear"}', 'TRUE')] if tier != 'quick'
+               else [(1, '{"attached"}', 'TRUE')])
